@@ -132,6 +132,9 @@ namespace pika {
             throw;    // rethrow any exception except 'thread_interrupted'
         }
 
+#if defined(PIKA_VERIF)
+        PIKA_VERIF_POINT(1315, pika::threads::detail::get_self_id().get());    // thread function returned
+#endif
         // Verify that there are no more registered locks for this
         // OS-thread. This will throw if there are still any locks
         // held.
@@ -177,6 +180,9 @@ namespace pika {
 
     static void resume_thread(threads::detail::thread_id_type const& id)
     {
+#if defined(PIKA_VERIF)
+        PIKA_VERIF_POINT(1305, id.get());    // exit callback of a join runs (target side, unlocked)
+#endif
         threads::detail::set_thread_state(id, threads::detail::thread_schedule_state::pending);
     }
 
@@ -201,14 +207,27 @@ namespace pika {
         }
         this_thread::interruption_point();
 
+#if defined(PIKA_VERIF)
+        PIKA_VERIF_POINT(1301, id_.noref().get(), reinterpret_cast<std::uint64_t>(this_id.get()));
+#endif
         // register callback function to be called when thread exits
         if (threads::detail::add_thread_exit_callback(
                 id_.noref(), util::detail::bind_front(&resume_thread, this_id)))
         {
             // wait for thread to be terminated
             detail::unlock_guard ul(l);
+#if defined(PIKA_VERIF)
+            PIKA_VERIF_POINT(1302, this_id.get(), 1);    // callback accepted, about to suspend
+#endif
             this_thread::suspend(threads::detail::thread_schedule_state::suspended, "thread::join");
+#if defined(PIKA_VERIF)
+            PIKA_VERIF_POINT(1303, this_id.get());    // suspension returned
+#endif
         }
+#if defined(PIKA_VERIF)
+        else { PIKA_VERIF_POINT(1302, this_id.get(), 0); }    // callback refused: target already done
+        PIKA_VERIF_POINT(1304, this_id.get());    // join returns
+#endif
 
         detach_locked();    // invalidate this object
     }
